@@ -37,12 +37,17 @@ OUT = os.path.join(BUILD, 'lspspec.rs')
 SEEDS = ['GotoDefinitionParams', 'GotoDefinitionResponse', 'ReferenceParams', 'Location', 'CodeLensParams', 'CodeLens',
          'CallHierarchyPrepareParams', 'CallHierarchyItem', 'CallHierarchyIncomingCallsParams',
          'CallHierarchyIncomingCall', 'CallHierarchyOutgoingCallsParams', 'CallHierarchyOutgoingCall',
-         'InlayHintParams', 'InlayHint', 'HoverParams', 'Hover']
+         'InlayHintParams', 'InlayHint', 'HoverParams', 'Hover',
+         # units handlers_diag: diagnostics.rs, document_symbol.rs, workspace_symbol.rs, code_action.rs
+         'Diagnostic', 'DocumentSymbolParams', 'DocumentSymbolResponse', 'WorkspaceSymbolParams', 'SymbolInformation',
+         'CodeActionParams', 'CodeActionOrCommand']
 
 # types whose representation is private (newtypes over i32 with associated consts: SymbolKind, SymbolTag,
-# InlayHintKind), foreign (serde_json::Value, fluent_uri inside Uri) or irrelevant to the handlers
-OPAQUE = ('Uri', 'Value', 'SymbolKind', 'SymbolTag', 'InlayHintKind', 'NumberOrString', 'ProgressToken',
-          'TextEdit', 'MarkedString', 'LanguageString', 'InlayHintLabelPart')
+# InlayHintKind, DiagnosticSeverity, DiagnosticTag, CodeActionKind, CodeActionTriggerKind), foreign (serde_json::Value, fluent_uri inside Uri) or irrelevant to the handlers
+OPAQUE = ('Uri', 'Value', 'SymbolKind', 'SymbolTag', 'InlayHintKind', 'ProgressToken',
+          'MarkedString', 'LanguageString', 'InlayHintLabelPart',
+          'DiagnosticSeverity', 'DiagnosticTag', 'CodeActionKind', 'CodeActionTriggerKind', 'DocumentChanges',
+          'ChangeAnnotation', 'CodeActionDisabled')
 
 # public modules of ls_types (everything else is `mod x; pub use x::*;`, i.e. public as ls_types::Name)
 PUBLIC_MODS = ('request', 'notification', 'error_codes', 'lsif')
